@@ -4,6 +4,7 @@ import (
 	"bytes"
 	"context"
 	"fmt"
+	"github.com/plgd-dev/go-coap/v3/net/blockwise"
 	"sync"
 	"time"
 
@@ -512,6 +513,98 @@ func burstUDP(qsize, n int) NestedRec {
 	return r
 }
 
+// bwOuterUDP: the outer request is a block-wise upload (two Block1 blocks); its handler issues a nested request. While it waits,
+// the peer sends the last block once more as a fresh transmission (new message ID, same token): whatever the layer answers to
+// that, an unrelated request and the awaited response are processed.
+func bwOuterUDP(qsize int) NestedRec {
+	r := NestedRec{Op: "nested", Transport: "udp", How: "bwouter", Depth: 1, QSize: qsize, Dispatch: []disp{}, Log: []string{}, Ev: []int{}}
+	cnt := &counts{n: map[string]int{}}
+	u := conns.NewUDP(func(cfg *udpclient.Config) {
+		cfg.ReceivedMessageQueueSize = qsize
+		cfg.BlockwiseEnable = true
+		cfg.BlockwiseSZX = blockwise.SZX16
+		cfg.BlockwiseTransferTimeout = 3 * time.Second
+		cfg.Handler = func(w *responsewriter.ResponseWriter[*udpclient.Conn], req *pool.Message) {
+			cnt.inc(req.Token())
+			p, _ := req.Path()
+			serve(p, func(ctx context.Context, q string) ([]byte, error) {
+				resp, err := w.Conn().Get(ctx, q)
+				if err != nil {
+					return nil, err
+				}
+				defer w.Conn().ReleaseMessage(resp)
+				return resp.ReadBody()
+			}, func(code codes.Code, body []byte) {
+				_ = w.SetResponse(code, message.TextPlain, bytes.NewReader(body))
+			})
+		}
+	})
+	defer u.Close()
+	seen := 0
+	waitOut := func(what string, pred func(d memnet.Dgram) bool) (memnet.Dgram, bool) {
+		var got memnet.Dgram
+		ok := hooks.WaitFor(wd, func() bool {
+			for _, raw := range u.Sess.Out(seen) {
+				seen++
+				if d, err := memnet.Parse(raw); err == nil && pred(d) {
+					got = d
+					return true
+				}
+			}
+			return false
+		})
+		if !ok {
+			r.Watchdog = true
+			r.Log = append(r.Log, "watchdog waiting for "+what)
+		}
+		return got, ok
+	}
+	injq := make(chan []byte, 64)
+	go func() {
+		for raw := range injq {
+			_ = u.CC.Process(nil, raw)
+		}
+	}()
+	defer close(injq)
+	tok := []byte{0xA0, 0x01}
+	blk := func(num int, more bool) message.Option {
+		v := byte(num << 4)
+		if more {
+			v |= 8
+		}
+		return message.Option{ID: message.Block1, Value: []byte{v}}
+	}
+	path := message.Option{ID: message.URIPath, Value: []byte("n1")}
+	injq <- memnet.Build(message.Confirmable, int(codes.POST), 2001, tok, message.Options{path, blk(0, true)}, bytes.Repeat([]byte{1}, 16))
+	if _, ok := waitOut("2.31 for block 0", func(x memnet.Dgram) bool { return x.Code == int(codes.Continue) }); !ok {
+		return finishNested(r, cnt)
+	}
+	injq <- memnet.Build(message.Confirmable, int(codes.POST), 2002, tok, message.Options{path, blk(1, false)}, []byte{2})
+	q, ok := waitOut("nested GET /q1", func(x memnet.Dgram) bool { p, _ := x.Opts.Path(); return x.Code == int(codes.GET) && p == "/q1" })
+	if !ok {
+		return finishNested(r, cnt)
+	}
+	injq <- memnet.Build(message.Acknowledgement, int(codes.Empty), q.MID, nil, nil, nil)
+	time.Sleep(5 * time.Millisecond)
+	// the last block once more, as a fresh transmission
+	injq <- memnet.Build(message.Confirmable, int(codes.POST), 2003, tok, message.Options{path, blk(1, false)}, []byte{2})
+	ptok := []byte{0xB0, 0x01}
+	injq <- memnet.Build(message.Confirmable, int(codes.GET), 2004, ptok, message.Options{{ID: message.URIPath, Value: []byte("plain")}}, nil)
+	if _, ok := waitOut("answer to /plain", func(x memnet.Dgram) bool {
+		return x.Code == int(codes.Content) && bytes.Equal(x.Token, ptok) && string(x.Payload) == "plain"
+	}); !ok {
+		return finishNested(r, cnt)
+	}
+	injq <- memnet.Build(message.NonConfirmable, int(codes.Content), 2005, q.Token, nil, []byte("a1"))
+	if _, ok := waitOut("answer to /n1", func(x memnet.Dgram) bool {
+		return x.Code == int(codes.Content) && bytes.Equal(x.Token, tok) && string(x.Payload) == "r1:a1"
+	}); !ok {
+		return finishNested(r, cnt)
+	}
+	r.Completed = true
+	return finishNested(r, cnt)
+}
+
 // refusedTCP: "never dropped while the connection is open": the application's request monitor refuses one message (it is not
 // dispatched, by design); the messages that arrive behind it IN THE SAME READ are dispatched like any other.
 func refusedTCP(qsize int) NestedRec {
@@ -563,6 +656,7 @@ func RunNested(out string) {
 		for _, q := range []int{0, 1, 16} {
 			w.Put(burstUDP(q, 400))
 			w.Put(refusedTCP(q))
+			w.Put(bwOuterUDP(q))
 			w.Put(obsNested("tcp", q))
 			w.Put(obsNested("udp", q))
 			for d := 1; d <= 3; d++ {
